@@ -33,13 +33,15 @@ type env struct {
 	files map[string]string
 	refT  map[string][]string   // doc+flags -> per-page Text (index p-1)
 	refF  map[string][][]string // doc+flags -> per-page fragment strings
+	refB  map[string]int        // doc+calls+op -> IsMultiColumn/IsCharacterLevel of a fresh extractor (-1 failed, 0, 1)
+	refC  map[string]string     // doc+calls+op -> canonical Document/Chunks of a fresh extractor
 }
 
 func newEnv(c *hx.Ctx) *env {
 	dir := filepath.Join(c.OutDir, "files")
 	os.RemoveAll(dir)
 	os.MkdirAll(dir, 0o755)
-	return &env{c: c, dir: dir, files: map[string]string{}, refT: map[string][]string{}, refF: map[string][][]string{}}
+	return &env{c: c, dir: dir, files: map[string]string{}, refT: map[string][]string{}, refF: map[string][][]string{}, refB: map[string]int{}, refC: map[string]string{}}
 }
 
 // path writes the document (once) and returns its file name.
@@ -128,6 +130,8 @@ func runOp(x *tabula.Extractor, k string) (o outcome) {
 			o.count, o.err = x.PageCount()
 		case "m":
 			o.flag, o.err = x.IsMultiColumn()
+		case "h":
+			o.flag, o.err = x.IsCharacterLevel()
 		case "x":
 			o.err = x.Close()
 		default:
@@ -176,46 +180,59 @@ func tokensIn(s, tag string) []tok {
 	return out
 }
 
-// expectedTokens: every body line of every listed non-blank page, in order.
-func expectedTokens(d docParams, pages []int) []tok {
-	var out []tok
-	for _, p := range pages {
-		if d.isBlank(p) {
-			continue
-		}
-		for j := 0; j < d.Lines; j++ {
-			out = append(out, tok{p, j})
-		}
-	}
-	return out
-}
-
-func sameToks(a, b []tok) bool {
-	if len(a) != len(b) {
+// pageToksOK: ts is what page p yields - every token of the page exactly once,
+// in writing order on a full-width page; on a two-column page any order is
+// accepted (which column is read first is not this property's subject, only
+// that the page is complete and not mixed with another page).
+func pageToksOK(d docParams, p int, ts []tok) bool {
+	n := d.linesOn(p)
+	if len(ts) != n {
 		return false
 	}
-	for i := range a {
-		if a[i] != b[i] {
+	if d.layoutOf(p) != layTwoCol {
+		for j, t := range ts {
+			if t.p != p || t.j != j {
+				return false
+			}
+		}
+		return true
+	}
+	seen := make([]bool, n)
+	for _, t := range ts {
+		if t.p != p || t.j < 0 || t.j >= n || seen[t.j] {
 			return false
 		}
+		seen[t.j] = true
 	}
 	return true
+}
+
+// toksArePages: the token stream is exactly the listed pages, one whole page
+// after the other (blank pages contribute nothing).
+func toksArePages(d docParams, ts []tok, pages []int) bool {
+	i := 0
+	for _, p := range pages {
+		n := d.linesOn(p)
+		if i+n > len(ts) || !pageToksOK(d, p, ts[i:i+n]) {
+			return false
+		}
+		i += n
+	}
+	return i == len(ts)
 }
 
 // pagesOfTokens groups a token stream into whole pages (0-based indices);
 // ok=false when the stream is not a sequence of complete pages.
 func pagesOfTokens(d docParams, ts []tok) ([]int, bool) {
 	var out []int
-	for i := 0; i < len(ts); i += d.Lines {
-		if i+d.Lines > len(ts) {
+	for i := 0; i < len(ts); {
+		p := ts[i].p
+		n := d.linesOn(p)
+		if p < 1 || n == 0 || i+n > len(ts) || !pageToksOK(d, p, ts[i:i+n]) {
 			return nil, false
 		}
-		for j := 0; j < d.Lines; j++ {
-			if ts[i+j].p != ts[i].p || ts[i+j].j != j {
-				return nil, false
-			}
-		}
-		out = append(out, ts[i].p-1)
+		out = append(out, p-1)
+		i += n
 	}
 	return out, true
 }
@@ -239,11 +256,18 @@ func fragStrings(fs []text.TextFragment) []string {
 	return out
 }
 
-func fragText(fs []text.TextFragment) string {
+// fragText lays the fragments out for the token reader: one fragment per line,
+// except in documents with glyph-by-glyph pages, where a line of the page is
+// many fragments and the fragments are therefore concatenated as they come.
+func fragText(d docParams, fs []text.TextFragment) string {
+	sep := "\n"
+	if d.hasGlyphPages() {
+		sep = ""
+	}
 	var b strings.Builder
 	for _, f := range fs {
 		b.WriteString(f.Text)
-		b.WriteString("\n")
+		b.WriteString(sep)
 	}
 	return b.String()
 }
@@ -425,9 +449,9 @@ func (e *env) selCase(d docParams, cs []call) {
 		}
 		judge(ot, "C10/selection-text",
 			func() bool {
-				return ot.text == joinNonEmpty(want) && sameToks(tokensIn(ot.text, d.Tag), expectedTokens(d, sp.pages))
+				return ot.text == joinNonEmpty(want) && toksArePages(d, tokensIn(ot.text, d.Tag), sp.pages)
 			},
-			func() bool { return sameToks(tokensIn(ot.text, d.Tag), expectedTokens(d, allPages(n))) }, false)
+			func() bool { return toksArePages(d, tokensIn(ot.text, d.Tag), allPages(n)) }, false)
 		impl := "err"
 		if !ot.failed() {
 			impl = "ok " + hx.HexS(ot.text)
@@ -453,9 +477,9 @@ func (e *env) selCase(d docParams, cs []call) {
 		judge(og, "C10/selection-fragments",
 			func() bool {
 				return strings.Join(got, "\x00") == strings.Join(want, "\x00") &&
-					sameToks(tokensIn(fragText(og.frags), d.Tag), expectedTokens(d, sp.pages))
+					toksArePages(d, tokensIn(fragText(d, og.frags), d.Tag), sp.pages)
 			},
-			func() bool { return sameToks(tokensIn(fragText(og.frags), d.Tag), expectedTokens(d, allPages(n))) }, false)
+			func() bool { return toksArePages(d, tokensIn(fragText(d, og.frags), d.Tag), allPages(n)) }, false)
 		pagesField := "0"
 		if n > 0 {
 			ps := make([]string, n)
@@ -489,7 +513,7 @@ func (e *env) selCase(d docParams, cs []call) {
 	if !d.hasBlank() {
 		impl := "err"
 		if !og.failed() {
-			if ps, ok := pagesOfTokens(d, tokensIn(fragText(og.frags), d.Tag)); ok {
+			if ps, ok := pagesOfTokens(d, tokensIn(fragText(d, og.frags), d.Tag)); ok {
 				impl = "ok " + intsStr(ps)
 			} else {
 				impl = "malformed-token-stream"
@@ -513,7 +537,7 @@ func (e *env) selCase(d docParams, cs []call) {
 				return false
 			}
 			for i, p := range od.doc.Pages {
-				if !sameToks(tokensIn(pageText(p), d.Tag), expectedTokens(d, []int{sp.pages[i]})) {
+				if !toksArePages(d, tokensIn(pageText(p), d.Tag), []int{sp.pages[i]}) {
 					return false
 				}
 			}
@@ -691,11 +715,15 @@ func (e *env) seqCase(d docParams, baseKind string, ops []seqOp) {
 	held := []bool{false}
 	released := []bool{false} // extractor j has run a terminal operation or Close
 	var results []string
-	opsStr := make([]string, len(ops))
+	opsStr := make([]string, len(ops))   // as written in failure details and case names
+	modelStr := make([]string, len(ops)) // as sent to the model (IsCharacterLevel has IsMultiColumn's frame)
 	nontrivial := false
+	probed := false // some non-terminal call has run on some extractor of this family
 
 	for i, op := range ops {
 		opsStr[i] = op.token()
+		modelStr[i] = op.modelToken()
+		var post []func() // history oracles: run after the descriptor accounting of this operation
 		if op.E >= len(exts) {
 			results = append(results, "bad/"+strconv.Itoa(fdCount()-baseline))
 			continue
@@ -760,7 +788,7 @@ func (e *env) seqCase(d docParams, baseKind string, ops []seqOp) {
 						return fmt.Sprintf("op %d (%s) of %v: PageCount = %d, %v; document has %d pages", i, op.token(), opsStr[:i+1], o.count, o.err, d.N)
 					})
 				}
-			case "m":
+			case "m", "h":
 				res = "err"
 				if o.err == nil {
 					res = "flag"
@@ -771,7 +799,20 @@ func (e *env) seqCase(d docParams, baseKind string, ops []seqOp) {
 						key = "C10/use-after-derived-close"
 					}
 					fail(key, func() string {
-						return fmt.Sprintf("op %d (%s) of %v: IsMultiColumn error = %v", i, op.token(), opsStr[:i+1], o.err)
+						return fmt.Sprintf("op %d (%s) of %v: %s error = %v", i, op.token(), opsStr[:i+1], opName(op.K), o.err)
+					})
+				}
+				if good && !sp.mayErr && o.err == nil {
+					cs, k, flag := calls[op.E], op.K, o.flag
+					post = append(post, func() {
+						want, ok := e.freshFlag(d, cs, k)
+						if !ok {
+							return
+						}
+						c.Check("C10/history-changes-flag", flag == want, kase, func() string {
+							return fmt.Sprintf("op %d (%s) of %v on a %s: %s = %v on the extractor built by %q, but %v on a fresh extractor built the same way",
+								i, op.token(), opsStr[:i+1], d.describe(), opName(k), flag, callsTokens(cs), want)
+						})
 					})
 				}
 			default: // terminal operations
@@ -782,7 +823,7 @@ func (e *env) seqCase(d docParams, baseKind string, ops []seqOp) {
 					case "t":
 						got, malformed = pagesOrMal(d, tokensIn(o.text, d.Tag))
 					case "g":
-						got, malformed = pagesOrMal(d, tokensIn(fragText(o.frags), d.Tag))
+						got, malformed = pagesOrMal(d, tokensIn(fragText(d, o.frags), d.Tag))
 					case "u":
 						for _, p := range o.doc.Pages {
 							got = append(got, p.Number-1)
@@ -844,6 +885,15 @@ func (e *env) seqCase(d docParams, baseKind string, ops []seqOp) {
 							i, op.token(), opsStr[:i+1], callsTokens(calls[op.E]), d.N, got, want0)
 					})
 				}
+				// whatever ran before on this extractor or on the ones it was derived from,
+				// the answer is the per-page results of the selected pages
+				if good && o.err == nil && !sp.mustErr && !sp.mayErr {
+					cs, k, oo, pages := calls[op.E], op.K, o, sp.pages
+					if probed {
+						c.Count("seq:terminal-after-nonterminal")
+					}
+					post = append(post, func() { e.historyOracle(d, kase, cs, k, oo, pages, i, op.token(), opsStr[:i+1]) })
+				}
 			}
 		}
 		fdAfter := fdCount()
@@ -858,7 +908,8 @@ func (e *env) seqCase(d docParams, baseKind string, ops []seqOp) {
 					return fmt.Sprintf("op %d (%s): a configuration method changed the descriptor count by %d", i, op.token(), delta)
 				})
 			}
-		case "c", "m":
+		case "c", "m", "h":
+			probed = true
 			if delta > 0 {
 				held[op.E] = true
 			}
@@ -891,6 +942,9 @@ func (e *env) seqCase(d docParams, baseKind string, ops []seqOp) {
 				})
 			}
 		}
+		for _, f := range post {
+			f()
+		}
 	}
 
 	aborted = false
@@ -908,7 +962,7 @@ func (e *env) seqCase(d docParams, baseKind string, ops []seqOp) {
 	if openOK {
 		ok = "1"
 	}
-	c.Op(fmt.Sprintf("c10.bld %s,%s,%s %s", baseKind, ok, pc, strings.Join(opsStr, " ")),
+	c.Op(fmt.Sprintf("c10.bld %s,%s,%s %s", baseKind, ok, pc, strings.Join(modelStr, " ")),
 		strings.Join(results, " ")+" | "+strings.Join(dump, " "))
 
 	// closing everything (twice) is harmless and releases every descriptor
@@ -937,7 +991,168 @@ func (e *env) seqCase(d docParams, baseKind string, ops []seqOp) {
 		borrowed.Close()
 	}
 	c.Count("seq:" + d.Kind + ":" + baseKind)
+	if good {
+		c.Count("seq:layout:" + d.layoutClass())
+	}
 	c.Case("seq|"+d.key()+"|"+baseKind+"|"+strings.Join(opsStr, " "), nontrivial)
+}
+
+func opName(k string) string {
+	switch k {
+	case "c":
+		return "PageCount"
+	case "m":
+		return "IsMultiColumn"
+	case "h":
+		return "IsCharacterLevel"
+	case "t":
+		return "Text"
+	case "g":
+		return "Fragments"
+	case "u":
+		return "Document"
+	case "k":
+		return "Chunks"
+	case "x":
+		return "Close"
+	}
+	return k
+}
+
+// freshFlag: the answer of IsMultiColumn / IsCharacterLevel on an extractor
+// that was built by the same configuration calls and has no history.
+func (e *env) freshFlag(d docParams, cs []call, k string) (bool, bool) {
+	key := d.key() + "|" + callsTokens(cs) + "|" + k
+	if v, ok := e.refB[key]; ok {
+		return v == 1, v >= 0
+	}
+	x := chainExt(tabula.Open(e.path(d)), cs)
+	o := runOp(x, k)
+	runOp(x, "x")
+	switch {
+	case o.failed():
+		e.c.Note("reference %s on %q failed: %v %s", opName(k), callsTokens(cs), o.err, o.panic)
+		e.refB[key] = -1
+	case o.flag:
+		e.refB[key] = 1
+	default:
+		e.refB[key] = 0
+	}
+	return o.flag, !o.failed()
+}
+
+func docCanon(doc *model.Document) string {
+	var b strings.Builder
+	for _, p := range doc.Pages {
+		fmt.Fprintf(&b, "[page %d]\n%s", p.Number, pageText(p))
+	}
+	return b.String()
+}
+
+func chunksCanon(cc *rag.ChunkCollection) string {
+	var b strings.Builder
+	for _, ch := range cc.Chunks {
+		fmt.Fprintf(&b, "[chunk pages %d-%d]\n%s\n", ch.Metadata.PageStart, ch.Metadata.PageEnd, ch.Text)
+	}
+	return b.String()
+}
+
+// freshCanon: Document / Chunks of an extractor built by the same calls, without history.
+func (e *env) freshCanon(d docParams, cs []call, k string) (string, bool) {
+	key := d.key() + "|" + callsTokens(cs) + "|" + k
+	if v, ok := e.refC[key]; ok {
+		return v, v != "\x00"
+	}
+	o := runOp(chainExt(tabula.Open(e.path(d)), cs), k)
+	if o.failed() {
+		e.c.Note("reference %s on %q failed: %v %s", opName(k), callsTokens(cs), o.err, o.panic)
+		e.refC[key] = "\x00"
+		return "", false
+	}
+	v := ""
+	if k == "u" {
+		v = docCanon(o.doc)
+	} else {
+		v = chunksCanon(o.chunks)
+	}
+	e.refC[key] = v
+	return v, true
+}
+
+func firstDiff(a, b string) string {
+	i := 0
+	for i < len(a) && i < len(b) && a[i] == b[i] {
+		i++
+	}
+	lo := i - 30
+	if lo < 0 {
+		lo = 0
+	}
+	cut := func(s string) string {
+		hi := i + 60
+		if hi > len(s) {
+			hi = len(s)
+		}
+		if lo > len(s) {
+			return ""
+		}
+		return s[lo:hi]
+	}
+	return fmt.Sprintf("first difference at byte %d: expected ...%q..., actual ...%q...", i, cut(a), cut(b))
+}
+
+// historyOracle: a terminal operation that succeeded on an extractor with
+// selection `pages` (ascending, in range) returned o; the statement says this
+// is the per-page results of those pages - here taken from extractors that
+// were opened for that single page (Text, Fragments) or built by the same
+// calls (Document, Chunks) and never used for anything else.
+func (e *env) historyOracle(d docParams, kase interface{}, cs []call, k string, o outcome, pages []int, i int, tokS string, prefix []string) {
+	c := e.c
+	where := func() string {
+		return fmt.Sprintf("op %d (%s) of %v on a %s: extractor built by %q (pages %v)", i, tokS, prefix, d.describe(), callsTokens(cs), pages)
+	}
+	switch k {
+	case "t":
+		refs, ok := e.refTexts(d, flagsOf(cs))
+		if !ok {
+			return
+		}
+		var want []string
+		for _, p := range pages {
+			want = append(want, refs[p-1])
+		}
+		w := joinNonEmpty(want)
+		c.Check("C10/history-changes-text", o.text == w, kase, func() string {
+			return where() + ": Text() is not the per-page texts of those pages as a fresh extractor returns them; " + firstDiff(w, o.text)
+		})
+	case "g":
+		rf, ok := e.refFrags(d)
+		if !ok {
+			return
+		}
+		var want []string
+		for _, p := range pages {
+			want = append(want, rf[p-1]...)
+		}
+		w, g := strings.Join(want, "\n"), strings.Join(fragStrings(o.frags), "\n")
+		c.Check("C10/history-changes-fragments", g == w, kase, func() string {
+			return where() + ": Fragments() is not the per-page fragments of those pages as a fresh extractor returns them; " + firstDiff(w, g)
+		})
+	case "u", "k":
+		w, ok := e.freshCanon(d, cs, k)
+		if !ok {
+			return
+		}
+		g, key := "", "C10/history-changes-document"
+		if k == "u" {
+			g = docCanon(o.doc)
+		} else {
+			g, key = chunksCanon(o.chunks), "C10/history-changes-chunks"
+		}
+		c.Check(key, g == w, kase, func() string {
+			return where() + ": " + opName(k) + "() differs from what a fresh extractor built by the same calls returns; " + firstDiff(w, g)
+		})
+	}
 }
 
 func zeroTo(n int) []int {
@@ -956,9 +1171,11 @@ func pagesOrMal(d docParams, ts []tok) ([]int, bool) {
 // ---- driver -------------------------------------------------------------------------------------
 
 func Run(c *hx.Ctx) {
-	c.Rep.Rule = "multi-page PDFs from an independent writer (1-9 pages, blank pages, flat or nested page tree, repeated header/footer lines, a unique token per body line); " +
+	c.Rep.Rule = "multi-page PDFs from an independent writer (1-9 pages, blank pages, flat or nested page tree, repeated header/footer lines, a unique token per body line; " +
+		"pages of one document may differ in layout: full-width lines, two columns of 3-34 lines each, lines shown glyph by glyph - page 1 plain and later pages not, the reverse, uniform, free mix); " +
 		"selections spelled as Pages/PageRange chains in any order with duplicates, overlaps, empty Pages(), inverted and out-of-range ranges, interleaved option calls; " +
-		"operation sequences (derive, PageCount, IsMultiColumn, Text, Fragments, Document, Chunks, Close, Close Close) on extractors sharing one base (Open or FromReader) over good, missing, garbage, mismatched and page-tree-less files; " +
+		"operation sequences (derive, PageCount, IsMultiColumn, IsCharacterLevel, Text, Fragments, Document, Chunks, Close, Close Close) on extractors sharing one base (Open or FromReader) over good, missing, garbage, mismatched and page-tree-less files, " +
+		"with non-terminal calls before, between and after derivations and terminal calls on the base, on derived extractors and on their siblings; every successful answer is compared with the per-page results of extractors that have no history; " +
 		"non-trivial = a successful extraction returning text of at least one page"
 	e := newEnv(c)
 	// collections happen only at settle() points between cases
@@ -1024,7 +1241,7 @@ func Run(c *hx.Ctx) {
 		if i%100 == 0 {
 			settle()
 		}
-		d := docParams{Kind: "good", N: r.Range(1, 6), Lines: r.Range(1, 2), Nested: r.Chance(1, 3), Tag: fmt.Sprintf("t%x", r.Intn(1<<12))}
+		d := genSeqDoc(r)
 		baseKind := "f"
 		switch r.Intn(12) {
 		case 0:
